@@ -316,8 +316,17 @@ impl Compiler {
                 self.emit_opcode(OpCode::Pop);
             }
             Stmt::Let(name, value) => {
-                let symbol = self.symbols.define(name)?;
-                self.compile_expression(value)?;
+                // A function value may call itself by the name it is bound to, so that name is declared first.
+                // Any other initializer is compiled before the declaration: inside it the name still means
+                // whatever it meant before (or nothing, which is an error)
+                let symbol = if matches!(value, Expr::Function { .. }) {
+                    let symbol = self.symbols.define(name)?;
+                    self.compile_expression(value)?;
+                    symbol
+                } else {
+                    self.compile_expression(value)?;
+                    self.symbols.define(name)?
+                };
                 let op = if symbol.scope == Scope::Global {
                     OpCode::SetGlobal
                 } else {
